@@ -97,7 +97,8 @@ def interp_of(K, u, wts, m, dim, dx, comp, i):
 
 @unit("virtual_boundary_methods", props=("C10",), kernels=True,
       configs=[dict(dim=d, method=mth, reset=r) for d in (2, 3)
-               for mth, r in (("lag_only", False), ("eul_and_lag", False), ("eul_and_lag_reset", True), ("time_step", False))],
+               for mth, r in (("lag_only", False), ("lag_only_after_another_evaluation", False), ("eul_and_lag", False),
+                              ("eul_and_lag_reset", True), ("time_step", False))],
       assumes=("M8: a property of every reachable state follows by induction over the call sequence from the constructor "
                "postcondition and the method contracts (each proved from an ARBITRARY state satisfying the invariant)",))
 def virtual_boundary_methods(K, dim, method, reset):
@@ -116,6 +117,19 @@ def virtual_boundary_methods(K, dim, method, reset):
             K.ensures_eq(f"force_untouched{list(idx)}", vbf.lag_grid_forcing_field[idx], forcing_before[idx])
         K.ensures_eq("clock_advances_by_exactly_dt", vbf.time, t + dt)
         return
+    if method == "lag_only_after_another_evaluation":
+        # call history: an EARLIER evaluation with other body positions / velocities / flow and no time step
+        # in between (e.g. two stages of the body's time integrator) must leave no trace in this one
+        m0 = {(a, i): K.int(f"prev_m{a}_{i}", lo=1, hi=shape[dim - 1 - a] - 3) for a in range(dim) for i in range(n_mark)}
+        s0 = {}
+        for key in m0:
+            s0[key] = K.real(f"prev_s{key[0]}_{key[1]}")
+            K.requires(and_(s0[key] >= 0, s0[key] < 1))
+        X0 = K.array("previous_position_field", (dim, n_mark), init=lambda idx: (m0[idx] + s0[idx]) * dx + dx / 2)
+        V0 = K.array("previous_velocity_field", (dim, n_mark))
+        u_prev = K.field("previous_eul_grid_velocity_field", (dim,) + shape)
+        vbf.compute_interaction_force_on_lag_grid(u_prev, X0, V0)
+        method = "lag_only"
     m, s, X, V = marker_inputs(K, dim, n_mark, shape, dx)
     u = K.field("eul_grid_velocity_field", (dim,) + shape)
     f = K.field("eul_grid_forcing_field", (dim,) + shape)
